@@ -291,6 +291,29 @@ def check_split_blocks(bufsize: int, xs: List[int], k: int, nb: int, filt: bool)
     return h.ok(True)
 
 
+def check_negative_start_positive_stop(s: int, b: int, n: int, infinite: bool) -> bool:
+    """
+    pre: 1 <= s <= B.S
+    pre: 0 <= b <= B.S
+    pre: 0 <= n <= B.N + B.S + 2
+    post: _
+    """
+    # Slice(-s, b): the result is xs[-s:b]; once more than b + s values have
+    # been seen it is known to be empty, so an infinite flow terminates and
+    # at most s values are kept
+    vals = list(range(n))
+    trace = []
+    with patched_deque():
+        PyDeque.reset_stats()
+        feed = Feed(vals, trace, infinite=True if infinite else False)
+        got = list(Slice(-s, b).run(feed))
+        if PyDeque.high_water > s:
+            return h.ok(False)
+    if infinite:
+        return h.ok(got == [] and pulls(trace) <= b + s + 1)
+    return h.ok(got == vals[-s:b] and pulls(trace) <= n)
+
+
 def check_negative_slice(s: int, form: int, xs: List[int], k: int) -> bool:
     """
     pre: 1 <= s <= B.S
@@ -338,6 +361,8 @@ CONDITIONS = [
     dict(fn="check_infinite", shards=(5, 10), budget=(60, 300), smoke=["check_infinite(3, 0, 1)"]),
     dict(fn="check_split_blocks", shards=(12, 24), budget=(70, 900),
          smoke=["check_split_blocks(2, [1, 2, 3, 4, 5], 4, 2, True)"]),
+    dict(fn="check_negative_start_positive_stop", budget=(70, 600),
+         smoke=["check_negative_start_positive_stop(2, 3, 4, False)", "check_negative_start_positive_stop(2, 3, 0, True)"]),
     dict(fn="check_negative_slice", budget=(70, 900),
          smoke=["check_negative_slice(2, 0, [1, 2, 3, 4, 5], 3)", "check_negative_slice(2, 2, [1, 2, 3, 4, 5], 2)",
                 "check_negative_slice(1, 1, [1, 2, 3, 4], 2)"]),
